@@ -48,7 +48,9 @@ SEMS = ("ident", "grp", "raise2")
 # syncblock: the key first makes a plain synchronous call of another (non-blocking) @asynq function - a nested wait that
 # must not flush anything - and then blocks on its batch item
 # fmeth: the key is a bound @asynq method of an object whose truth value is False (empty container-like object)
-BLOCKS = ("plain", "block", "syncblock", "fmeth")
+# retryblock: an aretry-wrapped key whose first attempt per element raises a listed exception BEFORE issuing its batch
+# request; the retries must still share a single flush
+BLOCKS = ("plain", "block", "syncblock", "fmeth", "retryblock")
 HELPERS = ("amap", "afilter", "afilterfalse", "asift", "asorted", "amax", "amin")
 CHUNK = {"amap": 60, "afilter": 60, "afilterfalse": 60, "asift": 60, "asorted": 25, "amax": 25, "amin": 25}
 RETRY_LETTERS = "LSMX"
@@ -216,6 +218,7 @@ class _Runtime(object):
             self.akey[(name, "block")] = self._blocking(deco, f, CItem)
             self.akey[(name, "syncblock")] = self._blocking(deco, f, CItem, True)
             self.akey[(name, "fmeth")] = self._falsy_method(deco, f)
+            self.akey[(name, "retryblock")] = self._retry_blocking(deco, f, CItem)
 
         @deco()
         def outer(helper, args, kwargs):
@@ -256,6 +259,7 @@ class _Runtime(object):
             rt.active = None
             rt.flushes = []
             rt.calls = []
+            rt.retry_seen = set()
 
         self.reset = reset
 
@@ -286,6 +290,25 @@ class _Runtime(object):
             return f(x)
 
         return key
+
+    def _retry_blocking(self, deco, f, CItem):
+        rt = self
+        from asynq.tools import aretry
+
+        class RetryMe(Exception):
+            pass
+
+        @deco()
+        def attempt(x):
+            k = id(x)
+            if k not in rt.retry_seen:
+                rt.retry_seen.add(k)
+                raise RetryMe("first attempt for this element fails before any request is issued")
+            rt.calls.append(x)
+            yield CItem()
+            return f(x)
+
+        return aretry(RetryMe, max_tries=3, sleep=0)(attempt)
 
     def _falsy_method(self, deco, f):
         rt = self
@@ -446,7 +469,7 @@ def run_cell(rt, spec, seq, convs, out, viol):
     n = len(elems)
     exp = rt.expected(spec, elems)
     want_calls = stage_n(spec, n)
-    blocking = spec["block"] in ("block", "syncblock")
+    blocking = spec["block"] in ("block", "syncblock", "retryblock")
     want_flush = [want_calls] if (blocking and want_calls > 0) else []
     judge_calls = spec["sem"] != "raise2" or blocking
     fn = rt.helpers[spec["helper"]]
